@@ -109,6 +109,8 @@ def _num(node):
 
 def classify_tests(fn):
     kinds = {}
+    # the cosine variable(s): arguments of acos(...)
+    clamp_vars = {n.id for c in ast.walk(fn) if isinstance(c, ast.Call) and isinstance(c.func, ast.Name) and c.func.id == "acos" for n in ast.walk(c) if isinstance(n, ast.Name)} - {"acos"}
     for s in stmts_in(fn.body):
         if not isinstance(s, ast.If):
             continue
@@ -117,11 +119,11 @@ def classify_tests(fn):
         if "start == end" in src or ("rx == 0" in src and "ry == 0" in src):
             kinds[src] = "degenerate"
         elif isinstance(t, ast.Compare) and isinstance(t.ops[0], ast.Gt) and isinstance(t.comparators[0], ast.Constant) and t.comparators[0].value == 1 \
-                and isinstance(t.left, ast.Name) and t.left.id != "d":
+                and isinstance(t.left, ast.Name) and t.left.id not in clamp_vars:
             kinds[src] = "radius"
         elif isinstance(t, ast.Compare) and isinstance(t.ops[0], (ast.Eq, ast.NotEq)) and {ast.unparse(t.left), ast.unparse(t.comparators[0])} == {"large_arc_flag", "sweep_flag"}:
             kinds[src] = "flags_equal" if isinstance(t.ops[0], ast.Eq) else "flags_differ"
-        elif isinstance(t, ast.Compare) and isinstance(t.left, ast.Name) and _num(t.comparators[0]) in (1, -1):
+        elif isinstance(t, ast.Compare) and _num(t.comparators[0]) in (1, -1) and any(isinstance(n, ast.Name) and n.id in clamp_vars for n in ast.walk(t.left)):
             kinds[src] = "clamp"
         elif isinstance(t, ast.Compare) and isinstance(t.ops[0], (ast.Lt, ast.Gt)) and isinstance(t.comparators[0], ast.Constant) and t.comparators[0].value == 0:
             kinds[src] = "cross_neg" if isinstance(t.ops[0], ast.Lt) else "cross_pos"
@@ -185,15 +187,21 @@ def steps(ctx, fn):
                 if k in ("cross_neg", "cross_pos") and first:
                     g = alg.ev(s.test.left)
                     ctx.ob("R05.1", "_svg_parameterize[cross guard]", g == ref.env["cross"], str(g), s.lineno, "the sign of the angle is the sign of ux*vy - uy*vx (F.6.5.4)")
-    # the sign rule direction: under 'flags equal' the root is negated (checked through the centre above); clamp is a pure range clamp
+    # the clamp of the cosine must be a pure range clamp into [-1, 1]: exactly (d > 1 -> 1) and (d < -1 -> -1)
+    seen = set()
     for s in stmts_in(fn.body):
         if isinstance(s, ast.If) and kinds.get(ast.unparse(s.test)) == "clamp":
             t = s.test
             v = _num(t.comparators[0])
             asg = s.body[0] if s.body and isinstance(s.body[0], ast.Assign) else None
-            ok = asg is not None and ast.unparse(asg.targets[0]) == ast.unparse(t.left) and isinstance(asg.value, (ast.Constant, ast.UnaryOp)) \
-                and ast.literal_eval(asg.value) == v and ((v == 1 and isinstance(t.ops[0], ast.Gt)) or (v == -1 and isinstance(t.ops[0], ast.Lt)))
-            ctx.ob("R05.1", "_svg_parameterize[clamp %s]" % ast.unparse(t), ok, ast.unparse(s)[:80], s.lineno, "the cosine may only be clamped into [-1, 1]")
+            ok = asg is not None and isinstance(t.left, ast.Name) and ast.unparse(asg.targets[0]) == ast.unparse(t.left) and isinstance(asg.value, (ast.Constant, ast.UnaryOp)) \
+                and ast.literal_eval(asg.value) == v and ((v == 1 and isinstance(t.ops[0], (ast.Gt, ast.GtE))) or (v == -1 and isinstance(t.ops[0], (ast.Lt, ast.LtE))))
+            if ok:
+                seen.add(v)
+            ctx.ob("R05.1", "_svg_parameterize[clamp %s]" % ast.unparse(t), ok, ast.unparse(s)[:80], s.lineno,
+                   "the cosine may only be clamped into [-1, 1]: values above 1 to 1, values below -1 to -1 (mapping -1.0000000000000002 to +1 turns a half turn into no arc or a full turn)")
+    ctx.ob("R05.1", "_svg_parameterize[clamp two-sided]", seen == {1, -1}, "clamped sides: %s" % sorted(seen), fn.lineno,
+           "float rounding can push the cosine beyond either end of [-1, 1] (too-small radii give exactly -1): both sides must be clamped to their own bound")
 
 
 def radius_sign(ctx, fn):
